@@ -189,6 +189,21 @@ func suiteResource(r *Rng, n int, thorough bool, o *Out) {
 			var op string
 			fields := cur.Fields()
 			panicked := false
+			if r.chance(1, 6) {
+				// a new resource of the same type is created from this one and has ITS type
+				// edited: that is no business of this resource (checked by the next verdict)
+				guard(func() {
+					child := soft.New()
+					if c, ok := child.(*jsonapi.SoftResource); ok {
+						c.AddAttr(jsonapi.Attr{Name: "child-only", Type: jsonapi.AttrTypeInt})
+						for _, f := range fields {
+							c.RemoveField(f)
+						}
+						c.Set("child-only", 5)
+					}
+				})
+				o.stat("softedit.child-edited")
+			}
 			switch k := r.IntN(10); {
 			case k < 4 && len(fields) > 0: // Set
 				f := fields[r.IntN(len(fields))]
